@@ -8,7 +8,8 @@ from harness.deser_run import Producer
 from harness.descr import data_real, data_coq, ty_coq, ty_src, con_opt_coq, con_src, Other
 from harness.schema_coq import doc_coq, Unsupported
 
-NEEDED = ["Deser/Model.v", "Deser/Spec.v", "Deser/Proofs.v", "Schema/Json.v", "Schema/Build.v", "Schema/Run.v",
+NEEDED = ["Core/TextProofs.v", "Schema/ObjAgree.v", "Schema/NestAgree.v", "Schema/RefAgree.v",
+          "Deser/Model.v", "Deser/Spec.v", "Deser/Proofs.v", "Schema/Json.v", "Schema/Build.v", "Schema/Run.v",
           "Schema/Proofs.v", "Schema/ConProofs.v", "Schema/ShapeProofs.v", "Schema/AgreeProofs.v"]
 
 HEADER_EXTRA = """From AV Require Import Schema.Json Schema.Build Schema.Run.
@@ -290,6 +291,15 @@ def run(tier):
     for k, e in errs:
         R.broken.append(f"coq evaluation failed (C06_hyps shard {k}): {e[-300:]}")
     R.hist["cases_within_the_proved_theorem"] = len(acases) - len(outside)
+    # ... and within the theorem with classes (inline or referenced, recursive included): exactly the statement agree_case evaluates
+    hyp2 = ("(fun c : " + T3 + " => let '(u, o, ar, root, t, d) := c in match root with Some _ => false | None => "
+            "ref_hyps u o (refs_of u (fun _ => false) ar t) (seq 0 (List.length (u_classes u))) (seq 0 (List.length (u_enums u))) "
+            "(Nat.pred fuel_s) fuel_s fuel_s fuel_s false t d end)")
+    outside2, errs = core.run_coq_shards("C06_hyps_classes", header + "From AV Require Import Schema.AgreeProofs Schema.ObjAgree Schema.NestAgree Schema.RefAgree.\n",
+                                         acases, hyp2, item_type=T3, shard=400)
+    for k, e in errs:
+        R.broken.append(f"coq evaluation failed (C06_hyps_classes shard {k}): {e[-300:]}")
+    R.hist["cases_within_the_theorem_with_classes"] = len(acases) - len(outside2)
     return R.finish(
         rule="generated universes (dataclass / NamedTuple / TypedDict, aliases, defaults, constraints, dependent_required, "
              "ordering) x types of depth <= 3 (collections, tuples, mappings with constrained / literal / enum keys, unions, "
